@@ -31,26 +31,81 @@ import (
 type c09disk struct {
 	Disk
 	stopped int32
-	fwdStop bool      // forward Stop to the wrapped disk (Manager); MemDisk.Stop would discard the bytes
-	w       *c09world // shared one-shot fault
-	created map[interface{}]bool
+	fwdStop bool                         // forward Stop to the wrapped disk (Manager); MemDisk.Stop would discard the bytes
+	w       *c09world                    // shared fault + per-disk page-cache bookkeeping
+	pd      int                          // physical disk index
+	ids     map[interface{}]core.TractID // open handle -> tract
 }
 
-// One injected disk fault, armed by the harness for one Create / PullTract call. It hits the first
-// NEW file that call opens (doCreate): kind 1 = the Open(O_CREATE|O_EXCL) itself, 2 = Setxattr on that
-// handle, 3 = the data Write on that handle (half of the bytes get written, then the error).
+// One injected disk fault per Store call: the n-th FAULTABLE disk call of the operation (Open, Setxattr,
+// Write, Close of a tract file, counted over all disks from the start of the call) fails:
+//
+//	Open -> ErrIO, nothing happens; Setxattr -> ErrIO, nothing set; Write -> the first half of the bytes
+//	is written, then ErrNoSpace; Close -> ErrIO: the handle is released but NOTHING WAS SYNCED.
 type c09fault struct {
 	armed bool
-	kind  int
-	err   core.Error
+	n     int
 	fired bool
+	kind  string
 }
 
-func (d *c09disk) fault() *c09fault {
-	if d.w == nil || !d.w.fault.armed {
-		return nil
+// Page-cache semantics of the double (MemDisk cases): updates made through a handle (new file, bytes,
+// version xattr) are volatile until SOME handle of that file is closed successfully - that is the fsync
+// ChecksumFile.Close performs; a failed Close leaves them volatile. Delete is durable at once (Manager
+// renames and syncs the directory). A power loss restores every dirty file to its durable image.
+type c09image struct {
+	exists bool
+	hasver bool
+	ver    []byte
+	data   []byte
+}
+
+func (d *c09disk) hit(kind string, id core.TractID) bool {
+	if d.w == nil || id.Blob == core.ZeroBlobID {
+		return false
 	}
-	return &d.w.fault
+	ft := &d.w.fault
+	if !ft.armed {
+		return false
+	}
+	if ft.n > 0 {
+		ft.n--
+		return false
+	}
+	ft.armed, ft.fired, ft.kind = false, true, kind
+	return true
+}
+
+// markDirty remembers the durable image of a tract file before its first unsynced update.
+func (d *c09disk) markDirty(id core.TractID) {
+	if d.w == nil || d.w.kind != 0 || id.Blob == core.ZeroBlobID {
+		return
+	}
+	m := d.w.dirty[d.pd]
+	if _, ok := m[id]; ok {
+		return
+	}
+	md := d.w.mem[d.pd]
+	md.lock.Lock()
+	defer md.lock.Unlock()
+	img := &c09image{}
+	if fd, ok := md.fds[id]; ok {
+		img.exists = true
+		img.data = append([]byte(nil), md.files[fd]...)
+		if xa, ok := md.xattrs[fd]; ok {
+			if v, ok := xa[versionXattr]; ok {
+				img.hasver = true
+				img.ver = append([]byte(nil), v...)
+			}
+		}
+	}
+	m[id] = img
+}
+
+func (d *c09disk) synced(id core.TractID) {
+	if d.w != nil && d.w.kind == 0 && !d.w.quiet {
+		delete(d.w.dirty[d.pd], id)
+	}
 }
 
 func (d *c09disk) off() bool { return atomic.LoadInt32(&d.stopped) != 0 }
@@ -58,36 +113,53 @@ func (d *c09disk) Open(ctx context.Context, id core.TractID, flags int) (interfa
 	if d.off() {
 		return nil, core.ErrDiskRemoved
 	}
-	creating := flags&os.O_CREATE != 0 && flags&os.O_EXCL != 0
-	if ft := d.fault(); ft != nil && ft.kind == 1 && creating {
-		ft.armed, ft.fired = false, true
-		return nil, ft.err
+	if d.hit("open", id) {
+		return nil, core.ErrIO
+	}
+	if flags&os.O_CREATE != 0 {
+		d.markDirty(id) // if the file does not exist yet its durable image is "absent"
 	}
 	f, e := d.Disk.Open(ctx, id, flags)
-	if e == core.NoError && creating {
-		if d.created == nil {
-			d.created = map[interface{}]bool{}
+	if e == core.NoError {
+		if d.ids == nil {
+			d.ids = map[interface{}]core.TractID{}
 		}
-		d.created[f] = true
+		d.ids[f] = id
+	} else if flags&os.O_CREATE != 0 && d.w != nil && d.w.kind == 0 {
+		// nothing was created: forget the image unless older updates are pending (then it was there before)
+		if img := d.w.dirty[d.pd][id]; img != nil && !img.exists && e != core.ErrAlreadyExists {
+			delete(d.w.dirty[d.pd], id)
+		}
 	}
 	return f, e
 }
 func (d *c09disk) Close(f interface{}) core.Error {
-	delete(d.created, f)
-	return d.Disk.Close(f)
+	id := d.ids[f]
+	delete(d.ids, f)
+	if d.hit("close", id) {
+		d.Disk.Close(f) // the descriptor is gone, the fsync failed
+		return core.ErrIO
+	}
+	e := d.Disk.Close(f)
+	if e == core.NoError {
+		d.synced(id)
+	}
+	return e
 }
 func (d *c09disk) Write(ctx context.Context, f interface{}, b []byte, off int64) (int, core.Error) {
 	if d.off() {
 		return 0, core.ErrDiskRemoved
 	}
-	if ft := d.fault(); ft != nil && ft.kind == 3 && d.created[f] {
-		ft.armed, ft.fired = false, true
+	id := d.ids[f]
+	if d.hit("write", id) {
 		n := 0
-		if len(b) > 1 {
-			n, _ = d.Disk.Write(ctx, f, b[:len(b)/2], off) // a short write really reaches the disk
+		if len(b)/2 > 0 {
+			d.markDirty(id)
+			n, _ = d.Disk.Write(ctx, f, b[:len(b)/2], off) // a short write really reaches the file
 		}
-		return n, ft.err
+		return n, core.ErrNoSpace
 	}
+	d.markDirty(id)
 	return d.Disk.Write(ctx, f, b, off)
 }
 func (d *c09disk) Read(ctx context.Context, f interface{}, b []byte, off int64) (int, core.Error) {
@@ -112,7 +184,11 @@ func (d *c09disk) Delete(id core.TractID) core.Error {
 	if d.off() {
 		return core.ErrDiskRemoved
 	}
-	return d.Disk.Delete(id)
+	e := d.Disk.Delete(id)
+	if e == core.NoError && d.w != nil && d.w.kind == 0 {
+		delete(d.w.dirty[d.pd], id) // durable at once
+	}
+	return e
 }
 func (d *c09disk) OpenDir() (interface{}, core.Error) {
 	if d.off() {
@@ -136,10 +212,11 @@ func (d *c09disk) Setxattr(f interface{}, name string, value []byte) core.Error 
 	if d.off() {
 		return core.ErrDiskRemoved
 	}
-	if ft := d.fault(); ft != nil && ft.kind == 2 && d.created[f] {
-		ft.armed, ft.fired = false, true
-		return ft.err
+	id := d.ids[f]
+	if d.hit("setxattr", id) {
+		return core.ErrIO
 	}
+	d.markDirty(id)
 	return d.Disk.Setxattr(f, name, value)
 }
 func (d *c09disk) SetControlFlags(fl core.DiskControlFlags) core.Error {
@@ -228,6 +305,15 @@ type c09world struct {
 	snap   *c09snap
 	nops   int
 	fault  c09fault
+	// fault bookkeeping for the operation being issued: index of the faultable call to fail (-1 none)
+	nextFault, curFault int
+	lastFired           bool
+	lastKind            string
+	quiet               bool                         // harness-internal probe: its Close does not count as a sync
+	dirty               []map[core.TractID]*c09image // per physical disk: durable images of files with unsynced updates
+	// model-free expectations about durability (see emitWith)
+	syncedFile map[[2]int64]c09file // (disk, tract) -> file as of the last operation on it that returned success
+	ackedVer   map[[2]int64]int64   // (disk, tract) -> highest acknowledged SetVersion since the copy was installed
 	// copies that appeared on a disk without a successful Create/PullTract of that tract (leftovers)
 	phantom map[[2]int64]bool
 	// copies installed by a successful PullTract and not modified since: (disk, tract) -> file
@@ -277,13 +363,13 @@ func (w *c09world) newStore() {
 
 func (w *c09world) newDiskObject(pd int) Disk {
 	if w.kind == 0 {
-		return &c09disk{Disk: w.mem[pd], w: w}
+		return &c09disk{Disk: w.mem[pd], w: w, pd: pd}
 	}
 	m, err := NewManager(w.roots[pd], w.cfg)
 	if err != nil {
 		w.t.Fatalf("NewManager: %v", err)
 	}
-	return &c09disk{Disk: m, w: w, fwdStop: true}
+	return &c09disk{Disk: m, w: w, pd: pd, fwdStop: true}
 }
 
 func (w *c09world) scanDisk(pd int) map[int64]c09file {
@@ -429,13 +515,163 @@ func (w *c09world) viol(sig, what string, detail map[string]interface{}) {
 }
 
 // emit writes the op, the observation (result ++ scan) and advances the snapshot; returns (pre, post).
+// arm the fault chosen by the generator (if any) for the Store call that follows
+func (w *c09world) arm() {
+	w.curFault = w.nextFault
+	w.nextFault = -1
+	if w.curFault >= 0 {
+		w.fault = c09fault{armed: true, n: w.curFault}
+	}
+}
+
+func (w *c09world) disarm() bool {
+	fired := w.fault.fired
+	if w.curFault >= 0 {
+		vw.Stat(fmt.Sprintf("fault.fired=%v.kind=%s", fired, w.fault.kind), 1)
+	}
+	w.lastKind = w.fault.kind
+	w.fault = c09fault{}
+	w.lastFired = fired
+	return fired
+}
+
+// opPowerLoss: every unsynced update of every disk is lost, the process restarts (no disk attached).
+func (w *c09world) opPowerLoss() {
+	if w.kind != 0 {
+		return // real files: a power loss cannot be staged
+	}
+	for pd, m := range w.dirty {
+		md := w.mem[pd]
+		md.lock.Lock()
+		for id, img := range m {
+			fd, ok := md.fds[id]
+			if !img.exists {
+				if ok {
+					delete(md.fds, id)
+					delete(md.files, fd)
+					delete(md.open, fd)
+					delete(md.xattrs, fd)
+				}
+				continue
+			}
+			if !ok {
+				continue // deleted durably in the meantime (Delete clears the entry, so this is unreachable)
+			}
+			md.files[fd] = append([]byte(nil), img.data...)
+			if img.hasver {
+				md.xattrs[fd] = map[string][]byte{versionXattr: append([]byte(nil), img.ver...)}
+			} else {
+				delete(md.xattrs, fd)
+			}
+		}
+		md.lock.Unlock()
+		w.dirty[pd] = map[core.TractID]*c09image{}
+	}
+	w.newStore()
+	w.emit([]int64{16}, nil)
+	vw.Stat("powerloss", 1)
+}
+
 func (w *c09world) emit(op []int64, res []int64) (*c09snap, *c09snap) {
 	return w.emitWith(op, res, w.scan())
 }
 
 func (w *c09world) emitWith(op []int64, res []int64, post *c09snap) (*c09snap, *c09snap) {
 	pre := w.snap
-	w.tr.Op(op...)
+	fired := w.lastFired
+	w.lastFired = false
+	if w.curFault >= 0 {
+		w.tr.Op(append([]int64{15, int64(w.curFault)}, op...)...)
+	} else {
+		w.tr.Op(op...)
+	}
+	w.curFault = -1
+	w.durability(op, res, pre, post, fired)
+	w.emitRest(op, res, pre, post, fired)
+	return pre, post
+}
+
+// durability: the model-free rules about acknowledged operations and power loss.
+//   - an operation of one tract (Create, Write, Read, Stat, SetVersion) in which a disk call failed must
+//     not report success;
+//   - after an operation on a tract returned success, the served copy of that tract is durable as it is:
+//     a later power loss leaves exactly that file (until a later operation changes it);
+//   - the version of a copy after a power loss is >= every SetVersion acknowledged for it since it was installed.
+func (w *c09world) durability(op []int64, res []int64, pre, post *c09snap, fired bool) {
+	k := op[0]
+	ok := len(res) > 0 && (res[0] == 0 || (k == 3 && res[0] == int64(core.ErrEOF)))
+	if fired && ok && k >= 1 && k <= 5 {
+		w.viol(fmt.Sprintf("fault-swallowed-op%d", k),
+			"a disk call of the operation failed (I/O error, failed fsync on close) but the operation reported success",
+			map[string]interface{}{"tract": op[1], "fault_kind": w.lastKind})
+	}
+	if k == 16 {
+		for key, want := range w.syncedFile {
+			got, has := post.disks[key[0]][key[1]]
+			if !has || got != want {
+				w.viol("acked-op-lost-by-power-loss",
+					"the last operation on this tract returned success, yet after a power loss its copy is not what that operation left",
+					map[string]interface{}{"disk": key[0], "tract": key[1], "v_acked": want.ver, "v_now": got.ver, "exists": has})
+			}
+		}
+		for key, v := range w.ackedVer {
+			got, has := post.disks[key[0]][key[1]]
+			if !has || !got.hasver || got.ver < v {
+				w.viol("acked-bump-lost-by-power-loss",
+					"a SetVersion was acknowledged, yet after a power loss the copy is missing or at a lower version (stale writers are accepted again)",
+					map[string]interface{}{"disk": key[0], "tract": key[1], "v_acked": v, "v_now": got.ver, "exists": has})
+			}
+		}
+		// what survived is durable
+		for pd := range post.disks {
+			for t, f := range post.disks[pd] {
+				w.syncedFile[[2]int64{int64(pd), t}] = f
+			}
+		}
+		return
+	}
+	// copies that stopped existing (GC, pull, conflict loss, failed install cleanup) carry no expectation
+	for pd := range pre.disks {
+		for t := range pre.disks[pd] {
+			if _, is := post.disks[pd][t]; !is {
+				delete(w.syncedFile, [2]int64{int64(pd), t})
+				delete(w.ackedVer, [2]int64{int64(pd), t})
+			}
+		}
+	}
+	if k < 1 || k > 6 {
+		return
+	}
+	t := op[1]
+	if ok {
+		if f, pd, served := post.cur(t); served {
+			key := [2]int64{int64(pd), t}
+			w.syncedFile[key] = f
+			switch k {
+			case 5:
+				if op[2] > w.ackedVer[key] || w.ackedVer[key] == 0 {
+					w.ackedVer[key] = op[2]
+				}
+			case 1, 6:
+				if _, _, was := pre.cur(t); !was || k == 6 {
+					delete(w.ackedVer, key) // a (re)installed copy starts a new history
+				}
+			}
+		}
+		return
+	}
+	// the operation failed: it may or may not have taken effect; keep the expectation only if nothing visible changed
+	for pd := range post.disks {
+		key := [2]int64{int64(pd), t}
+		if want, had := w.syncedFile[key]; had {
+			if got, has := post.disks[pd][t]; !has || got != want {
+				delete(w.syncedFile, key)
+			}
+		}
+	}
+}
+
+func (w *c09world) emitRest(op []int64, res []int64, pre, post *c09snap, fired bool) {
 	var l vw.L
 	l.Add(res...)
 	l.Add(post.encode()...)
@@ -481,14 +717,20 @@ func (w *c09world) emitWith(op []int64, res []int64, post *c09snap) (*c09snap, *
 		if !ok || f1 == f0 {
 			continue
 		}
-		if op[0] == 9 || op[0] == 10 || op[0] == 11 {
+		if op[0] == 9 || op[0] == 10 || op[0] == 11 || op[0] == 16 {
 			w.viol("pulled-copy-changed-across-restart", "a copy installed by PullTract no longer has the complete source bytes at the pulled version after a restart / re-attach",
 				map[string]interface{}{"disk": key[0], "tract": key[1], "v_pulled": f0.ver, "v_now": f1.ver})
 		}
 		delete(w.pulled, key) // legitimately modified by a later write / bump / pull
 	}
-	// every copy's version is monotone along the history, whatever the operation was
+	// every copy's version is monotone along the history, whatever the operation was. Two exceptions, both
+	// judged by other rules: a power loss may take back a bump that was never acknowledged (durability rules
+	// above), and a PullTract whose look at the local copy hit an I/O error treats that copy as unreadable and
+	// replaces it (store.go pullTractOnce: "if there was an error, just delete the file and overwrite it").
 	for pd := range post.disks {
+		if op[0] == 16 || (op[0] == 6 && fired) {
+			break
+		}
 		for k, f0 := range pre.disks[pd] {
 			f1, ok := post.disks[pd][k]
 			if ok && f0.hasver && (!f1.hasver || f1.ver < f0.ver) {
@@ -498,7 +740,6 @@ func (w *c09world) emitWith(op []int64, res []int64, post *c09snap) (*c09snap, *
 			}
 		}
 	}
-	return pre, post
 }
 
 func c09same(a, b *c09snap, exceptStamp bool) bool {
@@ -795,41 +1036,23 @@ func c09oracle(pre, post *c09snap, t int64, ok bool) int64 {
 	return int64(post.table[t])
 }
 
-func c09faultErr(kind int) core.Error {
-	if kind == 3 {
-		return core.ErrNoSpace
-	}
-	return core.ErrIO
-}
-
-func (w *c09world) opCreate(t int64, data []byte, off int64) { w.opCreateF(t, data, off, 0) }
-
-// opCreateF: Create, with disk fault `fk` (0 = none) armed for the call.
-func (w *c09world) opCreateF(t int64, data []byte, off int64, fk int) {
-	if fk != 0 {
-		w.fault = c09fault{armed: true, kind: fk, err: c09faultErr(fk)}
-	}
+func (w *c09world) opCreate(t int64, data []byte, off int64) {
+	w.arm()
 	e := w.store.Create(context.Background(), w.tid(t), data, off)
-	fired := w.fault.fired
-	w.fault = c09fault{}
+	fired := w.disarm()
 	post := w.scan()
 	orc := int64(0)
 	if _, was := w.snap.table[t]; !was && e == core.NoError {
 		orc = int64(post.table[t])
 	}
 	var op vw.L
-	if fk != 0 {
-		op.Add(13, t, off, orc, int64(fk), int64(c09faultErr(fk)))
-		vw.Stat(fmt.Sprintf("fault.create.kind=%d.fired=%v", fk, fired), 1)
-	} else {
-		op.Add(1, t, off, orc)
-	}
+	op.Add(1, t, off, orc)
 	op.Add(vw.RLE(data)...)
 	pre, _ := w.emitWith(op, []int64{int64(e)}, post)
 	vw.Stat("create.rc="+e.String(), 1)
-	if fired && (e == core.NoError || !c09same(pre, post, true)) {
-		w.viol("failed-create-left-state", "a Create whose disk call failed reported success or changed stored state",
-			map[string]interface{}{"tract": t, "fault": fk, "err": e.String()})
+	if _, _, was := pre.cur(t); fired && !was && (e == core.NoError || !c09same(pre, post, true)) {
+		w.viol("failed-create-left-state", "a Create of a new tract whose disk call failed reported success or changed stored state",
+			map[string]interface{}{"tract": t, "fault": w.lastKind, "err": e.String()})
 	}
 	// Create on an existing tract is a write fenced at the initial version
 	if f, _, ok := pre.cur(t); ok {
@@ -837,18 +1060,19 @@ func (w *c09world) opCreateF(t int64, data []byte, off int64, fk int) {
 		if t >= 100 {
 			iv = core.RSChunkVersion
 		}
-		w.fence("create-as-write", t, iv, e == core.NoError, f, pre, post, true)
+		w.fence("create-as-write", t, iv, e == core.NoError, f, pre, post, true, fired)
 	}
 }
 
 // fence evaluates the fencing sentence for one read/write/stat-like call.
-func (w *c09world) fence(name string, t int64, v int64, succeeded bool, f c09file, pre, post *c09snap, mayWrite bool) {
+// With an injected fault (fired) the call may fail although the version is current; everything else stands.
+func (w *c09world) fence(name string, t int64, v int64, succeeded bool, f c09file, pre, post *c09snap, mayWrite bool, fired bool) {
 	current := f.hasver && f.ver == v
 	if succeeded && !current {
 		w.viol("fence-"+name+"-wrong-version-accepted", name+" succeeded although the named version is not the tract's current version",
 			map[string]interface{}{"tract": t, "named": v, "current": f.ver, "hasver": f.hasver})
 	}
-	if !succeeded && current {
+	if !succeeded && current && !fired {
 		w.viol("fence-"+name+"-current-version-rejected", name+" failed although the named version is the tract's current version",
 			map[string]interface{}{"tract": t, "named": v})
 	}
@@ -859,14 +1083,16 @@ func (w *c09world) fence(name string, t int64, v int64, succeeded bool, f c09fil
 }
 
 func (w *c09world) opWrite(t int64, v int64, data []byte, off int64) {
+	w.arm()
 	e := w.store.Write(context.Background(), w.tid(t), int(v), data, off)
+	fired := w.disarm()
 	var op vw.L
 	op.Add(2, t, v, off)
 	op.Add(vw.RLE(data)...)
 	pre, post := w.emit(op, []int64{int64(e)})
 	vw.Stat("write.rc="+e.String(), 1)
 	if f, _, ok := pre.cur(t); ok {
-		w.fence("write", t, v, e == core.NoError, f, pre, post, true)
+		w.fence("write", t, v, e == core.NoError, f, pre, post, true, fired)
 		if e == core.NoError {
 			if f2, _, ok2 := post.cur(t); !ok2 || !f2.hasver || f2.ver != f.ver {
 				w.viol("write-changed-version", "a successful write changed the tract's version", map[string]interface{}{"tract": t})
@@ -878,7 +1104,9 @@ func (w *c09world) opWrite(t int64, v int64, data []byte, off int64) {
 }
 
 func (w *c09world) opRead(t int64, v int64, length int, off int64) {
+	w.arm()
 	b, e := w.store.Read(context.Background(), w.tid(t), int(v), length, off)
+	fired := w.disarm()
 	var res vw.L
 	res.Add(int64(e))
 	res.Add(vw.RLE(b)...)
@@ -886,7 +1114,7 @@ func (w *c09world) opRead(t int64, v int64, length int, off int64) {
 	vw.Stat("read.rc="+e.String(), 1)
 	ok := e == core.NoError || e == core.ErrEOF
 	if f, _, have := pre.cur(t); have {
-		w.fence("read", t, v, ok, f, pre, post, false)
+		w.fence("read", t, v, ok, f, pre, post, false, fired)
 		if !ok && len(b) != 0 {
 			w.viol("fence-read-data-with-error", "a rejected read returned bytes", map[string]interface{}{"tract": t})
 		}
@@ -896,7 +1124,9 @@ func (w *c09world) opRead(t int64, v int64, length int, off int64) {
 }
 
 func (w *c09world) opStat(t int64, v int64) {
+	w.arm()
 	sz, st, e := w.store.Stat(context.Background(), w.tid(t), int(v))
+	fired := w.disarm()
 	chg := int64(0)
 	if e == core.NoError {
 		if old, ok := w.last[t]; !ok {
@@ -909,7 +1139,7 @@ func (w *c09world) opStat(t int64, v int64) {
 	pre, post := w.emit([]int64{4, t, v}, []int64{int64(e), sz, chg})
 	vw.Stat("stat.rc="+e.String(), 1)
 	if f, _, have := pre.cur(t); have {
-		w.fence("stat", t, v, e == core.NoError, f, pre, post, false)
+		w.fence("stat", t, v, e == core.NoError, f, pre, post, false, fired)
 		if e == core.NoError && sz != f.size {
 			w.viol("stat-wrong-size", "stat returned a size different from the stored content's", map[string]interface{}{"tract": t})
 		}
@@ -934,12 +1164,16 @@ func (w *c09world) opSetVersion(t int64, v int64, ck int) {
 	if cond != 0 {
 		// read-only probe of the current stamp (Stat has no side effects); not part of the trace
 		if cv, ok := w.curVersion(t); ok {
+			w.quiet = true // the probe's Close must not count as an fsync of the model's history
 			if _, now, pe := w.store.Stat(context.Background(), w.tid(t), int(cv)); pe == core.NoError {
 				stale = now != cond
 			}
+			w.quiet = false
 		}
 	}
+	w.arm()
 	fv, e := w.store.SetVersion(w.tid(t), int(v), cond)
+	fired := w.disarm()
 	pre, post := w.emit([]int64{5, t, v, int64(ck)}, []int64{int64(e), int64(fv)})
 	vw.Stat("setversion.rc="+e.String(), 1)
 	if stale {
@@ -962,7 +1196,7 @@ func (w *c09world) opSetVersion(t int64, v int64, ck int) {
 		return
 	}
 	if f0.hasver && f1.hasver {
-		if f1.ver != f0.ver && !(f1.ver == f0.ver+1 && f1.ver == v && e == core.NoError) {
+		if f1.ver != f0.ver && !(f1.ver == f0.ver+1 && f1.ver == v && (e == core.NoError || fired)) {
 			w.viol("setversion-not-one-step", "SetVersion changed the version other than from v-1 to the requested v",
 				map[string]interface{}{"tract": t, "before": f0.ver, "after": f1.ver, "requested": v})
 		}
@@ -974,10 +1208,10 @@ func (w *c09world) opSetVersion(t int64, v int64, ck int) {
 			w.viol("setversion-skipped-step", "SetVersion accepted a version more than one above the current one",
 				map[string]interface{}{"tract": t, "before": f0.ver, "requested": v})
 		}
-		if e != core.NoError && f1.ver != f0.ver {
+		if e != core.NoError && f1.ver != f0.ver && !fired {
 			w.viol("setversion-failed-but-changed", "SetVersion failed but changed the version", map[string]interface{}{"tract": t})
 		}
-		if v > 1 && v <= f0.ver+1 && ck == 0 && e != core.NoError {
+		if v > 1 && v <= f0.ver+1 && ck == 0 && e != core.NoError && !fired {
 			w.viol("setversion-valid-rejected", "an unconditional SetVersion to at most current+1 was rejected",
 				map[string]interface{}{"tract": t, "before": f0.ver, "requested": v, "err": e.String()})
 		}
@@ -992,10 +1226,7 @@ type c09src struct {
 	err  core.Error
 }
 
-func (w *c09world) opPull(t int64, v int64, srcs []c09src) { w.opPullF(t, v, srcs, 0) }
-
-// opPullF: PullTract, with disk fault `fk` (0 = none) armed for the call.
-func (w *c09world) opPullF(t int64, v int64, srcs []c09src, fk int) {
+func (w *c09world) opPull(t int64, v int64, srcs []c09src) {
 	w.talker.replies = map[string]c09reply{}
 	w.talker.calls = nil
 	var addrs []string
@@ -1004,24 +1235,16 @@ func (w *c09world) opPullF(t int64, v int64, srcs []c09src, fk int) {
 		addrs = append(addrs, a)
 		w.talker.replies[a] = c09reply{b: s.data, err: s.err}
 	}
-	if fk != 0 {
-		w.fault = c09fault{armed: true, kind: fk, err: c09faultErr(fk)}
-	}
+	w.arm()
 	e := w.store.PullTract(context.Background(), addrs, w.tid(t), int(v))
-	fired := w.fault.fired
-	w.fault = c09fault{}
+	fired := w.disarm()
 	post := w.scan()
 	orc := int64(0)
 	if e == core.NoError && len(srcs) > 0 {
 		orc = int64(post.table[t])
 	}
 	var op vw.L
-	if fk != 0 {
-		op.Add(14, t, v, orc, int64(fk), int64(c09faultErr(fk)))
-		vw.Stat(fmt.Sprintf("fault.pull.kind=%d.fired=%v", fk, fired), 1)
-	} else {
-		op.Add(6, t, v, orc)
-	}
+	op.Add(6, t, v, orc)
 	op.AddInt(len(srcs))
 	for _, s := range srcs {
 		op.Add(int64(s.err))
@@ -1045,7 +1268,7 @@ func (w *c09world) opPullF(t int64, v int64, srcs []c09src, fk int) {
 			}
 		}
 	}
-	if had && f0.hasver && f0.ver > v {
+	if had && f0.hasver && f0.ver > v && !fired {
 		vw.Stat("pull.onto-newer", 1)
 		if (e == core.NoError && len(srcs) > 0) || !c09same(pre, post, false) {
 			w.viol("pull-overwrote-newer-copy", "PullTract at a version below the stored one succeeded or changed state",
@@ -1086,7 +1309,9 @@ func (w *c09world) opGC(old [][2]int64, gone []int64) {
 		g = append(g, w.tid(x))
 		op.Add(x)
 	}
+	w.arm()
 	w.store.GCTracts(o, g)
+	fired := w.disarm()
 	pre, post := w.emit(op, nil)
 	isGone := map[int64]bool{}
 	for _, x := range gone {
@@ -1111,7 +1336,7 @@ func (w *c09world) opGC(old [][2]int64, gone []int64) {
 			}
 		case inOld && f0.hasver && f0.ver <= v:
 			vw.Stat("gc.deleted", 1)
-			if has || inTable {
+			if (has || inTable) && !fired {
 				w.viol("gc-old-kept", "GC instruction at or above the stored version did not delete the copy",
 					map[string]interface{}{"tract": k, "stored": f0.ver, "instruction": v})
 			}
@@ -1136,7 +1361,9 @@ func (w *c09world) opCheck(ts [][2]int64) {
 		in = append(in, core.TractState{ID: w.tid(x[0]), Version: int(x[1])})
 		op.Add(x[0], x[1])
 	}
+	w.arm()
 	missing := w.store.Check(in)
+	w.disarm()
 	var res vw.L
 	res.AddInt(len(missing))
 	for _, m := range missing {
@@ -1272,14 +1499,30 @@ func (w *c09world) reattach(r *vw.Rng, pd int) {
 	vw.Stat("macro.reattach", 1)
 }
 
-// faultMacro: an install (Create / PullTract) whose disk call on the new file fails, followed by a
-// restart or re-attach that would pick up anything left behind, sometimes by a successful retry.
+// powerLossMacro: power loss, then the same disks come back (any order). For real files (Manager) a power
+// loss cannot be staged: a plain restart instead.
+func (w *c09world) powerLossMacro(r *vw.Rng) {
+	if w.kind != 0 {
+		w.fullRestart(r)
+		return
+	}
+	att := w.attached()
+	w.opPowerLoss()
+	for _, i := range r.Perm(len(att)) {
+		w.opAddDisk(att[i])
+	}
+	vw.Stat("macro.powerloss", 1)
+}
+
+func c09faultIndex(r *vw.Rng) int { return r.PickInt(0, 0, 1, 1, 2, 2, 2, 3, 3, 4, 5, 7) }
+
+// faultMacro: one operation with a failing disk call (any Open / Setxattr / Write / Close it makes), then
+// a power loss or restart or re-attach, sometimes after a successful retry.
 func (w *c09world) faultMacro(r *vw.Rng) {
 	if len(w.attached()) == 0 {
 		return
 	}
-	t := r.PickI64(0, 0, 1, 2, 100)
-	fk := r.PickInt(1, 2, 3, 3, 3)
+	t := w.randomTract(r)
 	cur, have := w.curVersion(t)
 	v := int64(r.Range(1, 5))
 	if have {
@@ -1288,12 +1531,7 @@ func (w *c09world) faultMacro(r *vw.Rng) {
 	if t >= 100 && r.Chance(1, 2) {
 		v = core.RSChunkVersion
 	}
-	if r.Chance(1, 3) {
-		if _, _, ok := w.snap.cur(t); ok && r.Chance(2, 3) {
-			w.opGC(nil, []int64{t})
-		}
-		w.opCreateF(t, c09data(r, false), 0, fk)
-	} else {
+	mkSrcs := func() []c09src {
 		n := r.PickInt(1, 1, 2, 3)
 		var srcs []c09src
 		for i := 0; i < n; i++ {
@@ -1306,18 +1544,43 @@ func (w *c09world) faultMacro(r *vw.Rng) {
 			}
 			srcs = append(srcs, s)
 		}
-		w.opPullF(t, v, srcs, fk)
+		return srcs
 	}
-	switch r.Intn(5) {
+	kind := r.Intn(10)
+	w.nextFault = c09faultIndex(r)
+	switch {
+	case kind < 4 && have: // the fence: SetVersion to cur+1, plain or conditional
+		ck := r.PickInt(0, 0, 1)
+		w.opSetVersion(t, cur+1, ck)
+	case kind < 6 && have:
+		w.opWrite(t, cur, c09data(r, false), int64(r.Intn(8)))
+	case kind < 7:
+		if _, _, ok := w.snap.cur(t); ok && r.Chance(2, 3) {
+			w.nextFault = -1
+			w.opGC(nil, []int64{t})
+			w.nextFault = c09faultIndex(r)
+		}
+		w.opCreate(t, c09data(r, false), 0)
+	default:
+		w.opPull(t, v, mkSrcs())
+	}
+	w.nextFault = -1
+	switch r.Intn(6) {
 	case 0, 1:
-		w.fullRestart(r)
+		w.powerLossMacro(r)
 	case 2:
+		w.fullRestart(r)
+	case 3:
 		if att := w.attached(); len(att) > 0 {
 			w.reattach(r, att[r.Intn(len(att))])
 		}
-	case 3:
-		w.opPull(t, v, c09goodSrc(r))
-		w.fullRestart(r)
+	case 4: // successful retry, then the power fails
+		if c, h := w.curVersion(t); h && kind < 4 {
+			w.opSetVersion(t, c+1, 0)
+		} else {
+			w.opPull(t, v, c09goodSrc(r))
+		}
+		w.powerLossMacro(r)
 	}
 	vw.Stat("macro.fault", 1)
 }
@@ -1335,14 +1598,19 @@ func (w *c09world) randomOp(r *vw.Rng, big bool) {
 		w.conflictMacro(r)
 		return
 	}
-	if r.Chance(1, 12) {
+	if r.Chance(1, 10) {
 		w.faultMacro(r)
 		return
 	}
-	fk := 0
-	if r.Chance(1, 10) {
-		fk = r.PickInt(1, 2, 3)
+	if r.Chance(1, 16) {
+		w.powerLossMacro(r)
+		return
 	}
+	w.nextFault = -1
+	if r.Chance(1, 7) {
+		w.nextFault = c09faultIndex(r) // any disk call of the next Store operation may fail
+	}
+	defer func() { w.nextFault = -1 }()
 	switch k := r.Intn(100); {
 	case k < 12:
 		off := int64(0)
@@ -1356,7 +1624,7 @@ func (w *c09world) randomOp(r *vw.Rng, big bool) {
 		if off+int64(len(d)) > core.TractLength {
 			off = 0
 		}
-		w.opCreateF(t, d, off, fk)
+		w.opCreate(t, d, off)
 	case k < 30:
 		d := c09data(r, big && r.Chance(1, 3))
 		off := int64(0)
@@ -1416,7 +1684,7 @@ func (w *c09world) randomOp(r *vw.Rng, big bool) {
 			}
 			srcs = append(srcs, s)
 		}
-		w.opPullF(t, c09pickVersion(r, cur, have), srcs, fk)
+		w.opPull(t, c09pickVersion(r, cur, have), srcs)
 	case k < 82:
 		var old [][2]int64
 		var gone []int64
@@ -1468,12 +1736,15 @@ func (w *c09world) randomOp(r *vw.Rng, big bool) {
 func c09runCase(t *testing.T, tr *vw.Trace, root *vw.Rng, ci int, kind int, big bool) {
 	r := root.Fork(uint64(ci))
 	w := &c09world{t: t, kind: kind, tr: tr, cid: fmt.Sprint(ci), last: map[int64]uint64{}, talker: &c09talker{},
-		phantom: map[[2]int64]bool{}, pulled: map[[2]int64]c09file{}}
+		phantom: map[[2]int64]bool{}, pulled: map[[2]int64]c09file{},
+		syncedFile: map[[2]int64]c09file{}, ackedVer: map[[2]int64]int64{}, nextFault: -1, curFault: -1}
 	cfg := c09cfg
 	w.cfg = &cfg
 	w.nd = r.PickInt(1, 2, 2, 2, 3, 3)
 	w.att = make([]Disk, w.nd)
+	w.dirty = make([]map[core.TractID]*c09image, w.nd)
 	for i := 0; i < w.nd; i++ {
+		w.dirty[i] = map[core.TractID]*c09image{}
 		if kind == 0 {
 			w.mem = append(w.mem, NewMemDisk())
 		} else {
@@ -1495,7 +1766,8 @@ func c09runCase(t *testing.T, tr *vw.Trace, root *vw.Rng, ci int, kind int, big 
 	for i := 0; i < nops; i++ {
 		w.randomOp(r, big)
 	}
-	// always end with a restart over the same disks: what was acknowledged must still be there
+	// always end with a power loss (MemDisk) and a restart over the same disks: what was acknowledged must still be there
+	w.powerLossMacro(r)
 	w.fullRestart(r)
 	vw.Distinct(fmt.Sprintf("%d/%d/%v", kind, w.nd, w.snap.encode()))
 	// release memory / workers
